@@ -241,7 +241,8 @@ class DerivedLevel(Level):
             levels = sample[f]
             for j in range(window.width):
                 idx = i+(j-(window.width-1))*sustain_count
-                if idx >= 0:
+                # `None` if the trial is before the first, or if `f` has no level there yet
+                if idx >= 0 and levels[idx] is not None:
                     args.append(levels[idx].name)
                 else:
                     args.append(None)
